@@ -738,7 +738,7 @@ struct TemplateCore {
                         LoopTag *tag = (storage->Insert(TagBit{})).MakeLoopTag();
                         tag->Offset  = loop_offset;
                         tag->Parent  = loop_tag;
-                        tag->Level   = SizeT8(parent_storage.Size());
+                        tag->Level   = parent_storage.Size();
                         loop_tag     = tag;
 
                         parseLoopAttributes(content, offset, *tag);
